@@ -846,6 +846,78 @@ def flagged_known(vs: list) -> bool:
     return any(v.signature in ("C09/two_completions_same_snapshot", "C09/dropped_against_stale_snapshot", "C09/event_lost_after_stale_snapshot") for v in vs)
 
 
+def _bufs(d: Any) -> dict:
+    """{buffer: [(type id, uid), ...]} without empty buffers (a missing buffer and an empty one read the same)"""
+    return {b: [(ET.TY_ID.get(type(e), -1), getattr(e, "uid", None)) for e in v] for b, v in (d or {}).items() if v}
+
+
+def c09_stale_rerun_expectation(before: Any, tick: Any) -> tuple | None:
+    """The reducer-level rule of the re-run mechanism, recomputed from the inputs of one result tick alone.
+
+    Walk the tick's results over a private copy of the step's LIVE buffers (never the invocation's own
+    snapshot): the first `AddCollectedEvent` that finds its live buffer longer than the snapshot the
+    invocation ran with is *stale*.  Returns `(buffer, event, live buffers at that moment)` for it: that is
+    what the invocation has to be re-run against.  `None`: the tick has no stale add (or the slot is unknown /
+    ambiguous, where the reducer raises or the input is ill-formed)."""
+    ws = before.workers.get(tick.step_name) if before is not None else None
+    if ws is None:
+        return None
+    ips = [ip for ip in ws.in_progress if ip.worker_id == tick.worker_id]
+    if len(ips) != 1:
+        return None
+    snap = ips[0].shared_state.collected_events
+    live = {b: list(v) for b, v in ws.collected_events.items()}
+    did_complete = any(isinstance(r, R.StepWorkerResult) for r in tick.result)
+    for r in tick.result:
+        if isinstance(r, R.AddCollectedEvent):
+            cur = live.setdefault(r.event_id, [])
+            if len(cur) > len(snap.get(r.event_id, [])):
+                return (r.event_id, r.event, {b: list(v) for b, v in live.items()})
+            cur.append(r.event)
+        elif isinstance(r, R.DeleteCollectedEvent):
+            if did_complete:
+                live.pop(r.event_id, None)
+        elif isinstance(r, R.StepWorkerResult) and isinstance(r.result, StopEvent):
+            live.clear()  # a completed run clears every buffer
+    return None
+
+
+def c09_snapshot_is_prefix(snapshot: Any, live: Any) -> bool:
+    """every buffer of the snapshot is a prefix of the live buffer of the same name (the buffers only grew since)"""
+    lv = _bufs(live)
+    return all(lv.get(b, [])[: len(v)] == v for b, v in _bufs(snapshot).items())
+
+
+def c09_rerun_check(before: Any, tick: Any, after: Any, cmds: list) -> list[tuple[str, str]]:
+    """`C09_reducer_stale_rerun` on one real (state, TickStepResult) -> (state, commands) step: a stale add
+    keeps the invocation in progress on the SAME worker slot, issues exactly one CommandRunWorker for it, and
+    the snapshot it is re-run with EQUALS the live buffers at that moment (every buffer, element by element).
+    Returns (signature, what) pairs."""
+    if after is None or not isinstance(tick, T.TickStepResult):
+        return []
+    exp = c09_stale_rerun_expectation(before, tick)
+    if exp is None:
+        return []
+    buf, ev, live = exp
+    step, wid = tick.step_name, tick.worker_id
+    old = next(ip for ip in before.workers[step].in_progress if ip.worker_id == wid)
+    facts = (f"step {step} slot {wid}: AddCollectedEvent({buf!r}, uid {getattr(ev, 'uid', None)}) against snapshot "
+             f"{_bufs(old.shared_state.collected_events).get(buf, [])} while the live buffer is {_bufs(live).get(buf, [])}")
+    out: list[tuple[str, str]] = []
+    runs = [k for k in cmds if isinstance(k, C.CommandRunWorker) and k.step_name == step and k.id == wid]
+    now = [ip for ip in after.workers[step].in_progress if ip.worker_id == wid]
+    if len(runs) != 1 or len(now) != 1 or getattr(runs[0].event, "uid", None) != getattr(ev, "uid", None) \
+            or getattr(now[0].event, "uid", None) != getattr(old.event, "uid", None):
+        out.append(("C09/stale_call_not_rerun", f"{facts}: {len(runs)} CommandRunWorker for the slot, {len(now)} invocation(s) left on it"))
+        return out
+    got, want = _bufs(now[0].shared_state.collected_events), _bufs(live)
+    if got != want:
+        shape = "old_snapshot_is_prefix" if c09_snapshot_is_prefix(old.shared_state.collected_events, live) else "round_completed_in_between"
+        out.append((f"C09/rerun_snapshot_not_fresh:{shape}",
+                    f"{facts}: re-run with snapshot {got}, the live buffers at that moment are {want}"))
+    return out
+
+
 def mon_c09(tr: Trace) -> list[Violation]:
     """collect_events on real runs, stated on what the step body and the live buffers saw.
 
@@ -867,7 +939,27 @@ def mon_c09(tr: Trace) -> list[Violation]:
     # collect_events has a tick but no call, so calls are paired with ticks through the execution index
     enters: dict[tuple, int] = {}
     any_stale: set = set()
+    wrong_view: set = set()  # steps with an invocation whose snapshot was not the live buffer it was (re)started against
     returned: dict[tuple, list] = {}  # (step, buf) -> [(uid list, stale?)]
+    # R0 (reducer level, every result tick): a stale add re-runs the invocation on its slot against a copy of
+    # the live buffers; `starts` = for every execution of (step, uid) the buffers it has to be started with
+    starts: dict[tuple, list] = {}
+    for c in _runner_calls(tr):
+        if c.after is None:
+            continue
+        exp_rerun = None
+        if c.kind == "reduce" and isinstance(c.tick, T.TickStepResult):
+            for sig, what in c09_rerun_check(c.before, c.tick, c.after, c.cmds):
+                out.append(Violation(sig, what, _replay(tr)))
+            exp_rerun = c09_stale_rerun_expectation(c.before, c.tick)
+        for k in c.cmds:
+            if not isinstance(k, C.CommandRunWorker) or k.step_name not in c.after.workers:
+                continue
+            if exp_rerun is not None and k.step_name == c.tick.step_name and k.id == c.tick.worker_id:
+                view = ("rerun", _bufs(exp_rerun[2]))
+            else:
+                view = ("start", _bufs(c.after.workers[k.step_name].collected_events))
+            starts.setdefault((k.step_name, getattr(k.event, "uid", None)), []).append(view)
     for rec in tr.steps:
         if rec[0] == "enter":
             enters[(rec[1], rec[2])] = enters.get((rec[1], rec[2]), 0) + 1
@@ -885,6 +977,22 @@ def mon_c09(tr: Trace) -> list[Violation]:
         buf_ok = all(snapc.get(t, 0) <= expc.get(t, 0) for t in snapc)
         full = _cnt(snap_tys + [ty]) == expc
         case = _replay(tr)
+        # R0 (seen from the step body): the snapshot this execution works on is the live buffer of the moment it
+        # was started / re-run.  A wrong view taints what follows: its symptoms are not those of the open findings
+        # (which are about snapshots that WERE the live buffer and went stale afterwards)
+        tainted = False
+        sl = starts.get(key, [])
+        if enters.get(key, 0) == 0 or enters[key] > len(sl):
+            pass  # not pairable (uids shared between invocations): no claim
+        else:
+            how, view = sl[enters[key] - 1]
+            want = [u for (_t, u) in view.get(buf, [])]
+            if snap != want:
+                tainted = True
+                wrong_view.add(step)
+                out.append(Violation("C09/rerun_snapshot_not_fresh:seen_by_step" if how == "rerun" else "C09/start_snapshot_not_live_buffer",
+                                     f"step {step}: the {'re-run' if how == 'rerun' else 'invocation'} for event {uid} works on snapshot {snap} of buffer {buf!r}; "
+                                     f"the live buffer when it was {'re-run' if how == 'rerun' else 'started'} was {want}", case))
         # R1: the call itself
         if not exp:
             if got != []:
@@ -922,10 +1030,10 @@ def mon_c09(tr: Trace) -> list[Violation]:
             if completed:
                 # an attempt that then failed or suspended in wait_for_event is re-executed with the same
                 # event and does not apply its DeleteCollectedEvent: only the completing attempt counts
-                returned.setdefault((step, buf), []).append((got, stale, uid))
+                returned.setdefault((step, buf), []).append((got, stale, uid, tainted))
             unseen = [u for u in live_before if u not in snap]
             if completed and stale and unseen and not any(u in live_after for u in unseen):
-                out.append(Violation("C09/event_lost_after_stale_snapshot",
+                out.append(Violation("C09/event_lost:snapshot_never_was_the_buffer" if tainted else "C09/event_lost_after_stale_snapshot",
                                      f"step {step}: invocation completed against snapshot {snap} while the live buffer was {live_before}: {unseen} deleted unseen", case))
             if completed and not stopped and live_after != []:
                 out.append(Violation("C09/buffer_not_cleared_after_full_set" if not stale else "C09/two_completions_same_snapshot",
@@ -943,14 +1051,14 @@ def mon_c09(tr: Trace) -> list[Violation]:
             # nothing recorded for this event: it must be surplus w.r.t. the live buffer
             livec = _cnt(live_before_tys)
             if ty in expc and livec.get(ty, 0) < expc[ty]:
-                sig = "C09/dropped_against_stale_snapshot" if stale else "C09/needed_event_dropped"
+                sig = "C09/needed_event_dropped:snapshot_never_was_the_buffer" if tainted else ("C09/dropped_against_stale_snapshot" if stale else "C09/needed_event_dropped")
                 out.append(Violation(sig, f"step {step}: event {uid} (type {ty}) dropped: snapshot {snap_tys}, live buffer {live_before_tys}, expected {exp}", case))
     # R5: no event that entered a buffer vanishes (unless the run's end cleared the buffers)
     rc = _runner_calls(tr)
     exit_idx = next((i for i, c in enumerate(rc) if c.kind == "reduce" and _is_exit(c.cmds)), None)
     last = (rc[exit_idx].before if exit_idx is not None else (rc[-1].after if rc and rc[-1].after is not None else None))
     if last is not None:
-        in_lists = {u for lists in returned.values() for (got, _s, _u) in lists for u in got}
+        in_lists = {u for lists in returned.values() for (got, _s, _u, _t) in lists for u in got}
         for step_name, ws in last.workers.items():
             final = {getattr(e, "uid", None) for evs in ws.collected_events.values() for e in evs}
             ever: dict = {}
@@ -964,17 +1072,20 @@ def mon_c09(tr: Trace) -> list[Violation]:
                         ever.setdefault(getattr(e, "uid", None), (b, i))
             for u, (b, i) in ever.items():
                 if u not in final and u not in in_lists:
-                    out.append(Violation("C09/event_lost_after_stale_snapshot" if step_name in any_stale else "C09/event_lost", f"step {step_name}: event {u} was in buffer {b!r} (tick {i}) and is neither in a returned list of a completed invocation nor in the buffer any more", _replay(tr)))
+                    out.append(Violation("C09/event_lost:snapshot_never_was_the_buffer" if step_name in wrong_view else "C09/event_lost_after_stale_snapshot" if step_name in any_stale else "C09/event_lost", f"step {step_name}: event {u} was in buffer {b!r} (tick {i}) and is neither in a returned list of a completed invocation nor in the buffer any more", _replay(tr)))
     # R2: each event in at most one returned list
     for (step, buf), lists in returned.items():
         seen: dict = {}
-        for got, stale, uid in lists:
+        for got, stale, uid, tainted in lists:
             for u in got:
                 if u in seen:
                     sig = "C09/two_completions_same_snapshot" if (stale or seen[u][1]) else "C09/event_in_two_lists"
+                    if tainted or seen[u][2]:
+                        # one of the two lists was built from a snapshot that never was the live buffer
+                        sig = "C09/event_in_two_lists:snapshot_never_was_the_buffer"
                     out.append(Violation(sig, f"step {step}: event {u} returned in {seen[u][0]} and again in {got}", _replay(tr)))
                 else:
-                    seen[u] = (got, stale)
+                    seen[u] = (got, stale, tainted)
     return out
 
 
